@@ -187,8 +187,9 @@ pub fn leg_interleave(thorough: bool) -> Value {
     let chain_lens: &[usize] = if thorough { &[0, 1, 3, 6] } else { &[0, 3] };
     let sys = actix_rt::System::new();
     for backend in ["in-memory", "sqlite", "sqlite-two-instances"] {
-        for &pre_len in chain_lens {
-            // pre_len == 0: the client has never been seen (the very first requests for a new client)
+        for &(pre_len, pre_snap) in chain_lens.iter().flat_map(|l| if *l >= 3 { vec![(*l, false), (*l, true)] } else { vec![(*l, false)] }).collect::<Vec<_>>().iter() {
+            // pre_len == 0: the client has never been seen (the very first requests for a new client);
+            // pre_snap: the client already holds a snapshot, of the version before the latest
             for &ra in &reqs {
                 for &rb in &reqs {
                     for n in 0..4usize {
@@ -234,6 +235,9 @@ pub fn leg_interleave(thorough: bool) -> Value {
                                     other => panic!("setup failed: {other:?}"),
                                 }
                             }
+                        }
+                        if pre_snap {
+                            setup.add_snapshot(cl, prev, b"S0".to_vec()).unwrap();
                         }
                         let mut universe = vec![NIL_VERSION_ID];
                         {
@@ -295,7 +299,7 @@ pub fn leg_interleave(thorough: bool) -> Value {
                             let raw = absfn::via_raw_sql(dir.path()).unwrap();
                             if !raw.anomalies.is_empty() {
                                 violations.push(json!({"tags": ["C03", "C01"], "what": format!("after overlapping requests the database has anomalies: {:?}", raw.anomalies),
-                                    "scenario": format!("{backend}: client with {pre_len} versions; A={ra:?} over HTTP, B={rb:?} runs completely just before A's transaction #{n}"), "responses": format!("A={class_a:?} B={class_b:?}")}));
+                                    "scenario": format!("{backend}: client with {pre_len} versions{}; A={ra:?} over HTTP, B={rb:?} runs completely just before A's transaction #{n}", if pre_snap { " and a snapshot of the version before the latest" } else { "" }), "responses": format!("A={class_a:?} B={class_b:?}")}));
                                 continue;
                             }
                             fin = cs(&raw.db, cl);
@@ -326,9 +330,17 @@ pub fn leg_interleave(thorough: bool) -> Value {
                         let got = (norm(&class_a, &before, &fin), norm(&class_b, &before, &fin), shape(&fin));
                         let ab = (norm(&a1, &before, &s1), norm(&b1, &before, &s1), shape(&s1));
                         let ba = (norm(&a2, &before, &s2), norm(&b2, &before, &s2), shape(&s2));
-                        let scenario = format!("{backend}: client with {pre_len} versions; A={ra:?} over HTTP, B={rb:?} runs completely just before A's transaction #{n}");
+                        let scenario = format!("{backend}: client with {pre_len} versions{}; A={ra:?} over HTTP, B={rb:?} runs completely just before A's transaction #{n}", if pre_snap { " and a snapshot of the version before the latest" } else { "" });
                         if got != ab && got != ba {
-                            violations.push(json!({"tags": ["C03", "C01"], "what": format!("no one-at-a-time order explains the outcome: got (A,B,state)={got:?}; order A,B gives {ab:?}; order B,A gives {ba:?}"), "scenario": scenario}));
+                            // besides C03 / C01: the property about the operation that was cut in two
+                            let mut tags = vec!["C03", "C01"];
+                            tags.extend(match ra {
+                                Req::GetSnap => vec!["C11"],
+                                Req::AddSnapLatest | Req::AddSnapPrev => vec!["C10", "C11"],
+                                Req::GetChild => vec!["C08", "C07"],
+                                _ => vec!["C02"],
+                            });
+                            violations.push(json!({"tags": tags, "what": format!("no one-at-a-time order explains the outcome: got (A,B,state)={got:?}; order A,B gives {ab:?}; order B,A gives {ba:?}"), "scenario": scenario}));
                         } else if samples.len() < 4 && n > 0 {
                             samples.push(json!({"scenario": scenario, "outcome": format!("{got:?}")}));
                         }
@@ -435,7 +447,14 @@ pub fn leg_interleave(thorough: bool) -> Value {
         }
     }
     let total_v = violations.len();
-    violations.truncate(6);
+    // at most 3 reports per distinct tag set
+    let mut kept: Vec<Value> = vec![];
+    for v in violations.into_iter() {
+        if kept.iter().filter(|x| x["tags"] == v["tags"]).count() < 3 {
+            kept.push(v);
+        }
+    }
+    let violations = kept;
     json!({"leg": "interleave", "thread_stress_runs": stress_runs, "cases": cases, "cases_where_B_actually_interleaved": fired, "violations": violations, "violations_total": total_v, "samples": samples,
         "bound": format!("3 backends (in-memory, one SQLite instance, two SQLite instances on one directory) x chain lengths {:?} (0 = client never seen) x 7 request kinds for A (HTTP) x 7 for B (library) x B placed before A's transaction #0..{}; B always runs to completion (no partial overlap of B); plus thread stress runs (4 threads with their own Server instances on one in-memory storage / one SQLite directory; a passing run proves nothing, a failing one is a counterexample)", chain_lens, if thorough { 3 } else { 2 })})
 }
